@@ -140,7 +140,7 @@ class Report:
                 lines.append(f'CHECKER-FAULT property={self.prop} obligation={o.ident} solvers disagree {o.second}')
             code = max(code, 3) if code != 1 else 1
         vac = [e for e in self.errors if e[1] in ('vacuous', 'crash')]
-        und = [e for e in self.errors if e[1] not in ('vacuous', 'crash')]
+        und = [e for e in self.errors if e[1] not in ('vacuous', 'crash')]      # out-of-subset, role, timeout
         if code == 0:
             if vac:
                 code = 3
